@@ -81,7 +81,25 @@ func main() {
 			rep.Analysed["packages"] = len(prog.Pkgs)
 			rep.Analysed["repo_functions"] = len(prog.RepoFuncs())
 			rep.NewConfig()
-			rule(prog, rep)
+			// a panic inside a rule (a shape of code it did not expect) makes the
+			// property undecided, but what the rule had established before is kept
+			// and reported
+			func() {
+				defer func() {
+					if x := recover(); x != nil {
+						if u, ok := x.(*core.UndecidedError); ok {
+							rep.Unknown("checker/undecided", "every rule must reach a verdict", "", u.Msg)
+							return
+						}
+						st := string(debug.Stack())
+						if len(st) > 1500 {
+							st = st[:1500]
+						}
+						rep.Unknown("checker/panic", "every rule must run to completion", "", fmt.Sprintf("checker panic: %v\n%s", x, st))
+					}
+				}()
+				rule(prog, rep)
+			}()
 			fmt.Printf("analysed configuration {%s}: %d packages, %d repo functions\n", name, len(prog.Pkgs), len(prog.RepoFuncs()))
 		}
 		rep.Analysed["configurations"] = cfgNames
